@@ -28,27 +28,36 @@ theorem history_invariant (P : Params) (v : Variant) (set : Settings) (w : World
   have := runH_inv P v _ h (HInv.init set w)
   exact ⟨this.inv.modules, this.inv.clean, this.susp⟩
 
+/-- **Settings survive every scan, whatever its outcome**: after any history (scans of every kind, `yr_scanner_scan_proc`
+    with any process memory or failing to attach, suspended / abandoned scans) the scanner's flags, timeout and callback
+    are exactly what the last `yr_scanner_set_*` calls made them (`settingsAfter`). Holds for both variants. -/
+theorem settings_survive (P : Params) (v : Variant) (set : Settings) (w0 : World) (h : List HOp) :
+    (runH P v (HSt.init set w0) h).sc.set = settingsAfter set h :=
+  runH_set P v (HSt.init set w0) h
+
 /-- **History independence** (code with the two fixes): after ANY history `h` — scans that succeeded, were
-    aborted or failed from the callback, timed out, hit the match limit, failed in evaluation, were
-    suspended and resumed, or suspended and abandoned — a scan `x` (its first call and any number `k` of
-    repetitions while it is suspended) produces, call by call, exactly the callback trace and result
-    code it produces on a newly created scanner with the same settings. -/
-theorem history_independent (P : Params) (set : Settings) (hcb : set.hasCallback = true) (w0 : World)
-    (h : List HOp) (x : Start) (k : Nat) :
+    aborted or failed from the callback, timed out, hit the match limit, failed in verification or evaluation, were
+    suspended and resumed, or suspended and abandoned, process scans, changes of flags / timeout between scans —
+    a scan `x` (its first call and any number `k` of repetitions while it is suspended) produces, call by call,
+    exactly the callback trace and result code it produces on a newly created scanner with the same settings
+    (= the settings last given to the scanner, `settings_survive`). -/
+theorem history_independent (P : Params) (set : Settings) (w0 : World)
+    (h : List HOp) (x : Start) (k : Nat) (hcb : (settingsAfter set h).hasCallback = true) :
     let st := runH P .fixed (HSt.init set w0) h
     tracesH P .fixed st (.start x :: List.replicate k .cont) =
-      tracesH P .fixed (HSt.init set st.w) (.start x :: List.replicate k .cont) := by
+      tracesH P .fixed (HSt.init (settingsAfter set h) st.w) (.start x :: List.replicate k .cont) := by
   intro st
   have hinv : HInv st := runH_inv P .fixed _ h (HInv.init set w0)
-  have hset : st.sc.set = set := runH_set P .fixed _ h
+  have hset : st.sc.set = settingsAfter set h := runH_set P .fixed _ h
+  generalize settingsAfter set h = set' at hcb hset ⊢
   simp only [tracesH]
   have hobs := scanCall_fresh_eq P x.cb x.stack st.sc x.it { st.w with nmsg := 0 }
     (by rw [hset]; exact hcb) hinv.inv (by simp [Start.it])
   rw [hset] at hobs
-  have e := obs_equiv hobs x.cb x.stack st (HSt.init set st.w)
-  have h1 : (stepH P .fixed st (.start x)).2 = (stepH P .fixed (HSt.init set st.w) (.start x)).2 := by
+  have e := obs_equiv hobs x.cb x.stack st (HSt.init set' st.w)
+  have h1 : (stepH P .fixed st (.start x)).2 = (stepH P .fixed (HSt.init set' st.w) (.start x)).2 := by
     simp only [stepH, HSt.init]; rw [e.2]
-  have h2 : HSt.Equiv (stepH P .fixed st (.start x)).1 (stepH P .fixed (HSt.init set st.w) (.start x)).1 := by
+  have h2 : HSt.Equiv (stepH P .fixed st (.start x)).1 (stepH P .fixed (HSt.init set' st.w) (.start x)).1 := by
     simp only [stepH, HSt.init]; exact e.1
   rw [h1, tracesH_equiv P .fixed _ _ _ h2]
 
@@ -76,12 +85,13 @@ def P : Params :=
     strRule := fun _ => 1
     maxMatches := 1000
     cands := fun d => if d = 2 then [⟨0, 1, 3⟩] else if d = 3 then [⟨0, 2, 3⟩] else []   -- data 2 / 3: string 0 at offset 1 / 2
-    ep := fun d _ => if d = 0 then some 512 else none          -- data 0: an executable with entry point 512
+    ep := fun _ d _ _ => if d = 0 then some 512 else none      -- data 0: an executable with entry point 512
+    singleMatch := fun _ => false
     scanErr := fun _ => none
     cond := fun i v => if i = 0 then .ret v.entryPoint.isSome else .ret (decide ((tget v.found 0).length ≥ 2))
-    modParse := fun _ => none }
+    modParse := fun _ _ => none }
 
-def set : Settings := ⟨true, true, 0, true⟩
+def set : Settings := ⟨true, true, 0, true, false, false⟩
 def cont : Nat → CbRet := fun _ => .cont
 def exe : Start := ⟨[⟨0, 64, some 0⟩], [], some 64, cont, 16⟩
 def text : Start := ⟨[⟨0, 8, some 1⟩], [], some 8, cont, 16⟩
@@ -123,6 +133,17 @@ example :
       tracesH P .fixed (HSt.init set w0) [.start text] ∧
     tracesH P .fixed (runH P .fixed (HSt.init set w0) [.start slow]) [.start once] =
       tracesH P .fixed (HSt.init set w0) [.start once] := by
+  decide
+
+open Witness in
+/-- non-vacuity of `settings_survive` / `history_independent` with flags and process scans: the user sets
+    SCAN_FLAGS_PROCESS_MEMORY, a process scan (here: of memory containing the executable) and a failed attach follow;
+    the flag is still set, and clearing it later is what `settingsAfter` says. -/
+example :
+    let pm : Settings := { set with processMemory := true }
+    (runH P .fixed (HSt.init set w0) [.config pm, .proc (some exe), .proc none, .start text]).sc.set = pm ∧
+    (runH P .fixed (HSt.init set w0) [.config pm, .proc (some exe), .config set, .start exe]).sc.set = set ∧
+    (tracesH P .fixed (HSt.init set w0) [.config pm, .proc (some exe), .proc none]).getLast? = some (some ([], .couldNotAttach)) := by
   decide
 
 open Witness in
